@@ -39,6 +39,7 @@ type Info struct {
 	NonMax      int // events with a non-maximal claimed frame
 	Offline     int // validator-periods spent silent
 	Density     string
+	MaxParents  int
 }
 
 // GenValidators draws 1..8 validators with one of the weight classes.
@@ -161,6 +162,7 @@ func GenDAG(t *rapid.T, epoch uint32, ids []idx.ValidatorID, weights []pos.Weigh
 	if maxParents < 1 {
 		maxParents = 1
 	}
+	info.MaxParents = maxParents
 	activity := make([]int, n)
 	for v := range activity {
 		activity[v] = rapid.SampledFrom([]int{4, 4, 4, 4, 3, 2, 1}).Draw(t, "activity")
